@@ -4,8 +4,21 @@
 package zzverif
 
 import (
+	"fmt"
+	"regexp"
+
 	"github.com/cockroachdb/redact"
 )
+
+// the library's two patterns and a run pattern, compiled by the harness:
+// the Find*/Match* family of the regexp model is diffed against the host
+// engine on them (RECONF)
+var reconfRes = []*regexp.Regexp{
+	regexp.MustCompile("‹[^‹›]*›"),
+	regexp.MustCompile("[‹›]"),
+	regexp.MustCompile("[‹›]+"),
+	regexp.MustCompile("a*"),
+}
 
 // segment alphabet of C07: S, E, X (cross), LF, ordinary byte, partial
 // marker bytes.
@@ -20,6 +33,11 @@ func H_reconf(p []int) {
 		s = append(s, reSyms[k]...)
 	}
 	observeMarkersAPI(s)
+	for k, re := range reconfRes {
+		tag := fmt.Sprintf("re%d", k)
+		vObserve(tag, []byte(fmt.Sprint(re.FindAllStringIndex(string(s), -1), re.FindAllIndex(s, 2), re.FindStringIndex(string(s)), re.FindIndex(s),
+			re.MatchString(string(s)), re.Match(s), re.FindAllString(string(s), -1), re.FindString(string(s)), len(re.FindAll(s, -1)))))
+	}
 }
 
 func observeMarkersAPI(s []byte) {
@@ -67,6 +85,11 @@ func H_c07(p []int) {
 	vAssert(bytesEq(str, strB), "C07/strip-variants-agree")
 	red2 := []byte(redact.RedactableString(red).Redact())
 	vAssert(bytesEq(red2, red), "C07/redact-idempotent")
+	// the operations are functions of their input: the same call made
+	// again, after other calls, gives the same result
+	vAssert(bytesEq([]byte(rs.Redact()), red), "C07/redact-repeatable")
+	vAssert(bytesEq([]byte(redact.RedactableBytes(append([]byte{}, s0...)).Redact()), red), "C07/redact-bytes-repeatable")
+	vAssert(bytesEq([]byte(rs.StripMarkers()), str), "C07/strip-repeatable")
 	vAssert(bytesEq([]byte(rs.ToBytes()), s0), "C07/tobytes")
 	vAssert(bytesEq([]byte(rb.ToString()), s0), "C07/tostring")
 	vAssert(bytesEq([]byte(rs.ToBytes().ToString()), s0), "C07/roundtrip")
